@@ -606,9 +606,18 @@ class Actions(Sub):
             try:
                 prob, raw = run_parse(env, p, text)
             except WallTimeout:
-                env._c01_stalls = getattr(env, '_c01_stalls', 0) + 1
-                prob = ('parse did not return within %d s of wall-clock time (normal: < 10 ms): blocked below the Python '
-                        'level (deadlock)' % self.ALARM)
+                # confirm on a fresh parser with a longer alarm (a loaded machine is not a deadlock)
+                signal.alarm(0)
+                counter['n'] = counter['fired'] = 0
+                box.clear()
+                p = box['p'] = build()
+                signal.alarm(6 * self.ALARM)
+                try:
+                    prob, raw = run_parse(env, p, text)
+                except WallTimeout:
+                    env._c01_stalls = getattr(env, '_c01_stalls', 0) + 1
+                    prob = ('parse did not return within %d s of wall-clock time (and not within %d s before that; normal: < 10 ms): '
+                            'blocked below the Python level (deadlock)' % (6 * self.ALARM, self.ALARM))
         finally:
             signal.alarm(0)
             signal.signal(signal.SIGALRM, old)
@@ -663,13 +672,20 @@ class Blowups(Sub):
         def onalarm(signum, frame):
             raise WallTimeout()
         old = signal.signal(signal.SIGALRM, onalarm)
-        signal.alarm(self.ALARM)
+        prob = None
         try:
-            try:
-                prob, raw = run_parse(env, p, text, per_char)
-            except WallTimeout:
-                prob = ('parse did not return within %d s of wall-clock time (normal: < 10 ms): a computation below the '
-                        'Python level that grows with the VALUE of an argument' % self.ALARM)
+            # a machine under load can make an honest parse miss the first alarm: a timeout is confirmed once with an
+            # alarm eight times as long before it is reported
+            for seconds in (self.ALARM, 8 * self.ALARM):
+                signal.alarm(seconds)
+                try:
+                    prob, raw = run_parse(env, p, text, per_char)
+                    break
+                except WallTimeout:
+                    prob = ('parse did not return within %d s of wall-clock time (and not within %d s before that; normal: < 10 ms): a '
+                            'computation below the Python level that grows with the VALUE of an argument' % (8 * self.ALARM, self.ALARM))
+                finally:
+                    signal.alarm(0)
         finally:
             signal.alarm(0)
             signal.signal(signal.SIGALRM, old)
